@@ -1,7 +1,7 @@
 (* Non-vacuity for C03: the "idx" wiring of the harness passes the well-formedness check for its
    unique indexes, and a concrete history exercises hand-over and swap of unique values. *)
 From Coq Require Import List NArith Bool.
-From Storage Require Import Base.Bytes Store.Model Store.WfSchema.
+From Storage Require Import Base.Bytes Store.Model Store.WfSchema Store.WfSetIdx.
 Import ListNotations.
 Open Scope N_scope.
 
@@ -58,3 +58,46 @@ Example hist_dup_rejected :
   | (rs, committed, _, _) => rs = [Some EDuplicate] /\ committed = false
   end.
 Proof. vm_compute. split; reflexivity. Qed.
+
+(* ---------------------------------------------------------------- set indexes *)
+Example idx_schema_wf_roles : wf_setidx_b idx_schema n_emp n_roles = true.
+Proof. vm_compute. reflexivity. Qed.
+Example idx_schema_wf_tagsx : wf_setidx_b idx_schema n_dept n_tagsx = true.
+Proof. vm_compute. reflexivity. Qed.
+(* the check does reject a set field that is also a back-reference set or a link field *)
+Example idx_schema_wf_reports_rejected : wf_setidx_b
+  (map (fun d => if str_eqb (sd_name d) n_emp then mkSdef (sd_name d) (sd_parent d) (sd_ext d) (sd_fields d) (sd_sets d)
+                   (CSetIdx n_reports :: sd_cons d) (sd_links d) else d) idx_schema) n_emp n_reports = false.
+Proof. vm_compute. reflexivity. Qed.
+
+(* a history on the roles index: a{r,q} b{r} ; a drops q (the bucket q becomes empty and disappears) and
+   gains p ; a rejected create (empty role) ; delete b ; a field-restricted update that skips roles *)
+Definition mk_emp_r (i nm : str) (roles : list str) : op :=
+  OCreate n_emp i false [(n_name, Some nm); (n_nick, None); (n_boss, None); (n_deptf, Some [100])] [(n_roles, roles)].
+Definition up_roles (i : str) (roles : list str) : op :=
+  OUpdate n_emp i [] [(n_roles, roles)] (Some [n_roles]).
+Definition shist : list tx :=
+  [ mkTx false [] [OCreate n_dept [100] false [(n_title, Some [116])] [(n_tagsx, [])]] false;
+    mkTx false [] [mk_emp_r [97] [120] [[114]; [113]]; mk_emp_r [98] [121] [[114]]] false;
+    mkTx false [] [up_roles [97] [[114]; [112]]] false;
+    mkTx false [] [mk_emp_r [99] [122] [[114]; []]] false;          (* empty role: rejected, rolled back *)
+    mkTx false [] [ODelete n_emp [98]] false;
+    mkTx false [] [up_name [97] [119]] false ].
+
+Example shist_index_before : sidx (run_txs idx_schema 8 st_empty (firstn 2 shist)) n_emp n_roles
+                             = [([113], [[97]]); ([114], [[97]; [98]])].
+Proof. vm_compute. reflexivity. Qed.
+(* the key q ([113]) is gone, not left with an empty list *)
+Example shist_bucket_disappears : sidx (run_txs idx_schema 8 st_empty (firstn 3 shist)) n_emp n_roles
+                             = [([112], [[97]]); ([114], [[97]; [98]])].
+Proof. vm_compute. reflexivity. Qed.
+Example shist_empty_role_rejected :
+  match run_tx idx_schema 8 (run_txs idx_schema 8 st_empty (firstn 3 shist)) (mkTx false [] [mk_emp_r [99] [122] [[114]; []]] false) with
+  | (rs, committed, _, _) => rs = [Some EOther] /\ committed = false
+  end.
+Proof. vm_compute. split; reflexivity. Qed.
+Example shist_index_final : sidx (run_txs idx_schema 8 st_empty shist) n_emp n_roles
+                             = [([112], [[97]]); ([114], [[97]])].
+Proof. vm_compute. reflexivity. Qed.
+Example shist_sets_final : get_set idx_schema (run_txs idx_schema 8 st_empty shist) n_emp [97] n_roles = [[112]; [114]].
+Proof. vm_compute. reflexivity. Qed.
